@@ -7,6 +7,8 @@ import (
 	"encoding/json"
 	"fmt"
 	"net"
+	"strconv"
+	"sync"
 	"sync/atomic"
 	"testing"
 	"time"
@@ -18,7 +20,9 @@ import (
 	"github.com/gotid/god/rpc/internal/serverinterceptors"
 	"google.golang.org/grpc"
 	"google.golang.org/grpc/codes"
+	"google.golang.org/grpc/connectivity"
 	"google.golang.org/grpc/credentials/insecure"
+	"google.golang.org/grpc/metadata"
 	"google.golang.org/grpc/status"
 	"google.golang.org/grpc/test/bufconn"
 	"google.golang.org/protobuf/types/known/emptypb"
@@ -76,6 +80,13 @@ func TestVerifDriverC01(t *testing.T) {
 			return map[string]any{"error": err.Error()}
 		}
 		defer conn.Close()
+		// the dial is non-blocking: wait for the transport here, so that the first call's real-time budget is not
+		// spent on connecting (a call that still overruns the budget is reported as what it is: DeadlineExceeded)
+		conn.Connect()
+		wctx, wcancel := context.WithTimeout(context.Background(), 5*time.Second)
+		for st := conn.GetState(); st != connectivity.Ready && conn.WaitForStateChange(wctx, st); st = conn.GetState() {
+		}
+		wcancel()
 		// the breaker interceptor names breakers by target + full method: ONE method per case, the backend's answer
 		// is switched by the driver
 		method := fmt.Sprintf("/verif%d.Backend/Call", n)
@@ -104,8 +115,28 @@ func TestVerifDriverC01(t *testing.T) {
 // ---------------------------------------------------------------- a started server (Server.Start)
 
 type verifC01Backend struct {
-	mode    *[2]int64
-	reached *int64
+	mu      sync.Mutex
+	reached map[int64]bool // call ids whose handler ran
+}
+
+func (b *verifC01Backend) wasReached(id int64) bool {
+	b.mu.Lock()
+	defer b.mu.Unlock()
+	return b.reached[id]
+}
+
+// what the driver asked for travels WITH the call (metadata verif-call: id, class, code), so a handler that the
+// scheduler starts late (after the server's real-time budget has run out) is still attributed to its own call
+func verifC01Meta(ctx context.Context) (id, class, code int64) {
+	md, _ := metadata.FromIncomingContext(ctx)
+	v := md.Get("verif-call")
+	if len(v) != 3 {
+		return -1, 0, 0
+	}
+	id, _ = strconv.ParseInt(v[0], 10, 64)
+	class, _ = strconv.ParseInt(v[1], 10, 64)
+	code, _ = strconv.ParseInt(v[2], 10, 64)
+	return
 }
 
 // verifC01Desc: service verif.c01.Backend with methods Call0..Call63 (one breaker each: the server breaker interceptor
@@ -122,8 +153,10 @@ func verifC01Desc() *grpc.ServiceDesc {
 				}
 				b := srv.(*verifC01Backend)
 				h := func(ctx context.Context, req any) (any, error) {
-					atomic.AddInt64(b.reached, 1)
-					class, code := atomic.LoadInt64(&b.mode[0]), atomic.LoadInt64(&b.mode[1])
+					id, class, code := verifC01Meta(ctx)
+					b.mu.Lock()
+					b.reached[id] = true
+					b.mu.Unlock()
 					if class == 6 { // hangs until its context is done, then gives up with the context's error
 						<-ctx.Done()
 						return nil, ctx.Err()
@@ -145,7 +178,7 @@ func verifC01Desc() *grpc.ServiceDesc {
 // TestVerifDriverC01Srv starts ONE server exactly as rpc/server.go does for a ServerConfig with a Timeout: NewServer,
 // AddUnaryInterceptors(UnaryTimeoutInterceptor(timeout)), Start(register) -- so the chain is the one Server.Start
 // assembles (built-ins incl. the breaker interceptor, then the added ones) -- and calls it over TCP with a plain client.
-// {"timeout": ignored after the first case (the server is started once, with 10 ms), "calls": [[class, code], ...]}:
+// {"timeout": ignored (the server is started once, with 30 ms), "calls": [[class, code], ...]}:
 // class 0 the handler answers the status code at once | 6 the handler overruns the server timeout.
 // Per call [1 iff cut off (handler not reached and an error came back), gRPC code that came back].
 func TestVerifDriverC01Srv(t *testing.T) {
@@ -156,12 +189,12 @@ func TestVerifDriverC01Srv(t *testing.T) {
 	}
 	addr := l.Addr().String()
 	l.Close()
-	var mode [2]int64
-	var reached int64
+	backend := &verifC01Backend{reached: map[int64]bool{}}
+	var callID int64
 	srv := NewServer(addr)
-	srv.AddUnaryInterceptors(serverinterceptors.UnaryTimeoutInterceptor(10 * time.Millisecond))
+	srv.AddUnaryInterceptors(serverinterceptors.UnaryTimeoutInterceptor(30 * time.Millisecond))
 	go srv.Start(func(s *grpc.Server) {
-		s.RegisterService(verifC01Desc(), &verifC01Backend{mode: &mode, reached: &reached})
+		s.RegisterService(verifC01Desc(), backend)
 	})
 	conn, err := grpc.Dial(addr, grpc.WithTransportCredentials(insecure.NewCredentials()), grpc.WithBlock(),
 		grpc.WithTimeout(5*time.Second))
@@ -181,12 +214,15 @@ func TestVerifDriverC01Srv(t *testing.T) {
 		method := fmt.Sprintf("/verif.c01.Backend/Call%d", n%64)
 		rows := make([][]int64, 0, len(c.Calls))
 		for _, call := range c.Calls {
-			atomic.StoreInt64(&mode[0], call[0])
-			atomic.StoreInt64(&mode[1], call[1])
-			before := atomic.LoadInt64(&reached)
-			err := conn.Invoke(context.Background(), method, &emptypb.Empty{}, &emptypb.Empty{})
+			callID++
+			ctx := metadata.AppendToOutgoingContext(context.Background(), "verif-call", strconv.FormatInt(callID, 10),
+				"verif-call", strconv.FormatInt(call[0], 10), "verif-call", strconv.FormatInt(call[1], 10))
+			err := conn.Invoke(ctx, method, &emptypb.Empty{}, &emptypb.Empty{})
 			row := []int64{0, int64(status.Code(err))}
-			if err != nil && atomic.LoadInt64(&reached) == before {
+			// cut off: an error came back and THIS call's handler never ran.  DeadlineExceeded is not what the breaker
+			// answers with (ErrServiceUnavailable travels as Unknown): it is the server's timeout interceptor, which sits
+			// INSIDE the breaker -- the call was let in and overran the budget, possibly before its handler was scheduled
+			if err != nil && !backend.wasReached(callID) && status.Code(err) != codes.DeadlineExceeded {
 				row = []int64{1, 100}
 			}
 			rows = append(rows, row)
